@@ -85,10 +85,7 @@ def clause_b(ctx, P):
     for fname in ("Zeroconf::handle_query", "Zeroconf::conflict_handler", "Zeroconf::exec_command_register_resend"):
         f = P.one(fname)
         ftr = tracer(P, f)
-        idx = None
-        for l in range(1, f.argc + 1):
-            if f.locals[l].get("name") == "if_index":
-                idx = l
+        idx = param_index(f, "if_index", "u32")
         keys = set()
         n = 0
         for b, t in f.calls():
